@@ -1104,11 +1104,20 @@ def _real_process_runs(ctx, n_runs, literals, P, rng, kinds, names, escaped):
                 time.sleep(0.002)
             # let `sh -c` commands install their trap / fork their children
             time.sleep(rng.choice([0.1, 0.15, 0.25]) if any(kinds[k][0][0] == "sh" for k in chosen) else rng.choice([0.0, 0.01, 0.1]))
+        lost = [k for k, f in zip(chosen, futs) if not f.done() and f not in list(ex.futures)]
+        if lost:
+            ctx.violation("bookkeeping:unfinished-future-dropped",
+                          f"real processes: accepted, unfinished futures {lost} are no longer in executor.futures",
+                          {"kind": "real", "mode": mode, "jobs": chosen, "overlap": overlap})
         raised = None
         try:
             ex.shutdown(wait=(mode == "wait"))
         except BaseException as e:  # noqa: BLE001
             raised = e
+        if raised is None and mode == "wait" and not all(f.done() for f in futs):
+            ctx.violation("shutdown-wait:returned-before-accepted-job-done",
+                          "real processes: shutdown(wait=True) returned although an accepted job has not delivered its result",
+                          {"kind": "real", "mode": mode, "jobs": chosen, "overlap": overlap})
 
         def dead_within(f, secs):
             if f.process is None:
@@ -1145,7 +1154,8 @@ def _real_process_runs(ctx, n_runs, literals, P, rng, kinds, names, escaped):
             if alive:
                 ctx.violation(KEY_JOIN, f"real processes: shutdown(wait=True) raised {type(raised).__name__} while {alive} still run", replay)
         elif alive and overlap and mode == "nowait":
-            ctx.violation(KEY_CANCEL, f"real processes: {alive} alive after shutdown(wait=False) returned (shutdown called right after submit)", replay)
+            key = KEY_CANCEL if str(ctx.extra.get("variant", "000"))[1] == "0" else "real:alive-after-shutdown-nowait-overlap"
+            ctx.violation(key, f"real processes: {alive} alive after shutdown(wait=False) returned (shutdown called right after submit)", replay)
         elif alive:
             ctx.violation(f"real:alive-after-shutdown-{mode}", f"processes {alive} alive after shutdown({mode}) returned", replay)
         if alive or raised is not None:
@@ -1301,7 +1311,8 @@ def correspond(ctx):
     exhaustive_cfgs = 0
     for (cfg, rot, d), rep in zip(meta, reps):
         if not rep.startswith("ok "):
-            raise RuntimeError(f"enum {cfg}: {rep}")
+            mismatches.append(f"enum {cfg}: {rep}")
+            continue
         _ok, total, scheds = rep.split(" ", 2)
         scheds = [s.split(",") for s in scheds.split("|")]
         total_enumerated += len(scheds)
@@ -1321,6 +1332,30 @@ def correspond(ctx):
     ctx.extra["cfg_rot_pairs_run_exhaustively"] = exhaustive_cfgs
     ctx.note(f"enumerated {total_enumerated} schedules over {len(reqs)} (configuration, rotation) pairs, "
              f"{exhaustive_cfgs} pairs run in full (cap {cap})")
+
+    # --- 2b. directed priority schedules, chosen on the real code (independent of the model's labels) -------------------
+    # every order of the thread classes {submitters, workers, shutdown callers, cancel tasks}: e.g. "s,h,c,w" = all
+    # submits (a later submit happens while the earlier jobs' workers are still before Popen), then the shutdowns and
+    # their cancel tasks, the workers last; the environment (process exit) moves only when nothing else can
+    import itertools
+    dcfgs = ["tifu.tifu:0", "tifu.Tifs:1", "tifu.tifu.tifu:0", "tifu.Tifu.tIfk:01", "tifs.tiFu.tifu:1", "Tifu.tifu:00",
+             "tifu.tifu.Tifu.tifu:0", "tifu.tifu:-"]
+    dcfgs += [c for c in (random_config(rng) for _ in range(ctx.scale(6, 40))) if "." in c]
+    for cfg in dcfgs:
+        for order in itertools.permutations("shcw"):
+            for reverse_ids in (False, True):
+                def pchooser(n, en, order=order, reverse_ids=reverse_ids):
+                    if not en:
+                        return None
+                    for cls in order + ("e",):
+                        cand = [e for e in en if e[0] == cls]
+                        if cand:
+                            return cand[-1] if reverse_ids else cand[0]
+                    return en[0]
+
+                r = run_real(cfg, pchooser)
+                runs.append((r, "directed:" + "".join(order)))
+    ctx.count("directed-configs", len(dcfgs))
 
     # --- 3. random walks chosen on the real code ------------------------------------------------------------------------
     n_walks = ctx.scale(300, 6000)
@@ -1368,7 +1403,10 @@ def correspond(ctx):
             continue
         if r.error:
             continue
-        bad = compare_with_model(r, rep)
+        try:
+            bad = compare_with_model(r, rep)
+        except Exception as e:  # noqa: BLE001
+            bad = f"comparison failed: {type(e).__name__}: {e}"
         if bad and mismatch is None:
             mismatch = f"[{source}] cfg {r.cfg}: {bad}"
     ctx.sample({"cfg": runs[-1][0].cfg, "labels": runs[-1][0].labels, "final": runs[-1][0].final})
@@ -1377,7 +1415,10 @@ def correspond(ctx):
     real_process_runs(ctx, ctx.scale(16, 300), literals)
 
     if mismatch:
-        raise RuntimeError("model and real code disagree (model stale, or the code under test changed): " + mismatch)
+        mismatches.append(mismatch)
+    if mismatches:
+        raise RuntimeError("model and real code disagree (model stale, or the code under test changed): "
+                           + " || ".join(mismatches[:4]))
 
 
 def thread_of(label: str) -> str:
